@@ -3,7 +3,10 @@ use super::job_queue::*;
 use super::queue_state::*;
 use super::wake_queue::*;
 
+#[cfg(not(logicalshift_desync_verif))]
 use std::sync::*;
+#[cfg(logicalshift_desync_verif)]
+use desync_verif_rt::sync::*;
 use std::collections::vec_deque::*;
 
 use futures::task;
